@@ -1,5 +1,6 @@
 import BeffVerif.Props.C06
 import BeffVerif.Props.C06Sem
+import BeffVerif.Props.C06Total
 open BeffVerif.C06
 #print axioms bdd_union_exact
 #print axioms bdd_intersect_exact
@@ -13,3 +14,10 @@ open BeffVerif.C06
 #print axioms semtype_union_exact
 #print axioms semtype_diff_exact
 #print axioms semtype_complement_exact
+#print axioms BeffVerif.C06T.union_total
+#print axioms BeffVerif.C06T.intersect_total
+#print axioms BeffVerif.C06T.complement_total
+#print axioms BeffVerif.C06T.diff_total
+#print axioms BeffVerif.C06T.script_total
+#print axioms BeffVerif.C06T.bdd_ops_total_of_ordered
+#print axioms BeffVerif.C06T.toBdd_total
